@@ -67,9 +67,25 @@ package common
 //@   modifies nothing
 //@   aux[empty] len(input) == 0 ==> median == 0
 
+// Hex encoding. HexDec/HexOK are, by definition, what encoding/hex.DecodeString returns; Enc is what
+// EncodeToString returns ("0X" followed by upper-case hex digits).
+//@ ghost func HexDec(s string) []byte
+//@ ghost func HexOK(s string) bool
+//@ ghost func Enc(b []byte) string
+//@ ghost func Dec(s string) []byte { return HexDec(s[2:]) }
+//@ ghost func DecOK(s string) bool { return len(s) >= 2 && HexOK(s[2:]) }
+//@ axiom[enc-dec]   forall b []byte :: DecOK(Enc(b)) && len(Dec(Enc(b))) == len(b) && (len(b) > 0 ==> __seqeq(Dec(Enc(b)), b))
+//@ axiom[enc-upper] forall b []byte :: Upper(Enc(b)) == Enc(b) && len(Enc(b)) >= 2
+//@ import "strings"
+//@ ghost func Upper(s string) string { return strings.ToUpper(s) }
+
+//@ func EncodeToString(hexBytes []byte) string
+//@   trusted definition of Enc: "0X" followed by the upper-case hexadecimal digits of the bytes
+//@   modifies nothing
+//@   ensures[def] ret0 == Enc(hexBytes)
+
 //@ func DecodeFromString(hexString string) ([]byte, error)
 //@   safety on
 //@   modifies nothing
-//@   ensures[dec] ret1 == nil ==> __seqeq(ret0, dec(hexString))
-
-//@ ghost func dec(s string) []byte
+//@   ensures[dec] ret1 == nil ==> DecOK(hexString) && __seqeq(ret0, Dec(hexString))
+//@   ensures[err] ret1 != nil ==> !DecOK(hexString)
